@@ -19,7 +19,8 @@ from __future__ import annotations
 
 import ast
 
-from ..absval import Rat, ratfun
+from ..absval import Poly, Rat, ratfun
+from ..normalize import expand_locals, inline_helpers
 from ..core import (AnalysisError, call_name, const_str, dotted, find_calls,
                     is_self_attr, kwarg, last_attr, names_in, short, txt,
                     walk)
@@ -69,7 +70,8 @@ def _sole_assign(func, name):
 
 
 def r191(ctx, repo):
-    gc = repo.func(HU, "HTTPFile.get_cache_chunk")
+    gc = inline_helpers(repo, HU, repo.func(HU, "HTTPFile.get_cache_chunk"),
+                        keep=("download_range",))
     idx = gc.args.args[1].arg
     res = _sym_resolver({"self._chunk_size": "c", "self.length": "L",
                          idx: "k"})
@@ -130,7 +132,7 @@ def r191(ctx, repo):
     # Range header in both siblings
     for rel, q in ((HU, "HTTPFile.download_range"),
                    (S3, "S3File.download_range")):
-        f = repo.func(rel, q)
+        f = inline_helpers(repo, rel, repo.func(rel, q))
         a0, a1 = f.args.args[1].arg, f.args.args[2].arg
         js = [n for n in walk(f) if isinstance(n, ast.JoinedStr)
               and any(isinstance(v, ast.Constant) and "bytes=" in str(v.value)
@@ -144,14 +146,16 @@ def r191(ctx, repo):
                     if isinstance(v, ast.FormattedValue)]
             r2 = _sym_resolver({})
             try:
-                first = ratfun(fmts[0], r2)
-                second = ratfun(fmts[1], r2)
+                first = ratfun(ast.parse(expand_locals(f, fmts[0]),
+                                         mode="eval").body, r2)
+                second = ratfun(ast.parse(expand_locals(f, fmts[1]),
+                                          mode="eval").body, r2)
                 S = Rat(Poly.sym(a0))
                 E = Rat(Poly.sym(a1))
                 ok = (consts == ["bytes=", "-"] and len(fmts) == 2
                       and _same(first, S) and _same(second, E - ONE))
-                why = (f"header is bytes={{{txt(fmts[0])}}}-"
-                       f"{{{txt(fmts[1])}}}")
+                why = (f"header is bytes={{{expand_locals(f, fmts[0])}}}-"
+                       f"{{{expand_locals(f, fmts[1])}}}")
             except (AnalysisError, IndexError):
                 why = "Range header has an unexpected shape"
         ctx.ob("R19.1", ok,
@@ -159,7 +163,8 @@ def r191(ctx, repo):
                else f"{q}: {why} – expected bytes={{start}}-{{stop-1}}",
                node=js[0] if js else f, label="range header")
     # read_range_cached
-    rr = repo.func(HU, "HTTPFile.read_range_cached")
+    rr = inline_helpers(repo, HU, repo.func(HU, "HTTPFile.read_range_cached"),
+                        keep=("get_cache_chunk", "download_range"))
     p_start, p_stop = rr.args.args[1].arg, rr.args.args[2].arg
     loops = [n for n in walk(rr) if isinstance(n, ast.For)
              and isinstance(n.iter, ast.Call) and call_name(n.iter) == "range"]
@@ -169,25 +174,46 @@ def r191(ctx, repo):
     lo, hi = lp.iter.args[0], lp.iter.args[1]
 
     def floordiv_of(e, num):
-        """e (maybe via a single assignment / np.int64 wrapper) is
-        `num // chunk_size` (+ const) -> returns the added constant"""
-        add = 0
-        if isinstance(e, ast.Name):
-            d = [x for x in _sole_assign(rr, e.id)
-                 if x.lineno < lp.lineno]
-            if d:
-                e = d[-1].value
-        if isinstance(e, ast.Call) and call_name(e) in ("np.int64", "int"):
-            e = e.args[0]
-        if isinstance(e, ast.BinOp) and isinstance(e.op, ast.Add) \
-                and isinstance(e.right, ast.Constant):
-            add = e.right.value
-            e = e.left
-        if isinstance(e, ast.BinOp) and isinstance(e.op, ast.FloorDiv) \
-                and txt(e.left) == num and txt(e.right) == \
-                "self._chunk_size":
-            return add
-        return None
+        """`e` is `num // chunk_size` + const (in any association, through
+        single-assignment locals defined before the loop and np.int64/int
+        wrappers) -> the constant, else None"""
+        class Pre(ast.NodeTransformer):
+            def visit_Name(self, node):
+                if isinstance(node.ctx, ast.Load):
+                    inside = {id(x) for x in ast.walk(lp)}
+                    d = [x for x in _sole_assign(rr, node.id)
+                         if id(x) not in inside and x.lineno <= lp.lineno]
+                    if len(d) == 1:
+                        return self.visit(ast.parse(
+                            "(" + txt(d[0].value) + ")", mode="eval").body)
+                return node
+        cur = Pre().visit(ast.parse(txt(e), mode="eval").body)
+
+        def res(node):
+            if isinstance(node, ast.Call) and call_name(node) in (
+                    "np.int64", "int", "np.uint64") and node.args:
+                return ratfun(node.args[0], res)
+            if isinstance(node, ast.BinOp) and isinstance(
+                    node.op, ast.FloorDiv):
+                if txt(node.left) == num and txt(
+                        node.right) == "self._chunk_size":
+                    return "FD"
+                return "FD_other_" + txt(node)
+            if isinstance(node, ast.Name):
+                return node.id
+            return None
+        try:
+            r = ratfun(cur, res)
+        except AnalysisError:
+            return None
+        diff = r - Rat(Poly.sym("FD"))
+        m = diff.monomial() if not diff.n.is_zero() else ({}, 0)
+        if m is None:
+            return None
+        exps, coef = m
+        if exps:
+            return None
+        return int(coef) if coef == int(coef) else None
     a = floordiv_of(lo, p_start)
     b = floordiv_of(hi, p_stop)
     ctx.ob("R19.1", a == 0, "first chunk index is start // chunk_size"
@@ -408,7 +434,8 @@ def r192(ctx, repo):
 
 
 def r193(ctx, repo):
-    rd = repo.func(HU, "HTTPFile.read")
+    rd = inline_helpers(repo, HU, repo.func(HU, "HTTPFile.read"),
+                        keep=("read_range_cached",))
     allargs = [a.arg for a in rd.args.posonlyargs + rd.args.args]
     if len(allargs) < 2:
         raise AnalysisError("HTTPFile.read: size parameter lost")
@@ -649,6 +676,30 @@ MUTANTS = [
 ]
 
 TWINS = [
+    ("range header through locals (refactor C19/2)", HU,
+     ('        resp = self.session.get(self.url,\n'
+      '                                headers={"Range": '
+      'f"bytes={start}-{stop-1}"}\n'
+      '                                )\n',
+      '        last_byte = stop - 1\n'
+      '        range_header = {"Range": f"bytes={start}-{last_byte}"}\n'
+      '        resp = self.session.get(self.url, headers=range_header)\n')),
+    ("chunk index range extracted (refactor C19/4)", HU,
+     [("        chunk_start = np.int64(start // self._chunk_size)\n"
+       "        chunk_stop = np.int64(stop // self._chunk_size + 1)\n"
+       "        data = b\"\"\n",
+       "        data = b\"\"\n"),
+      ("        for chunk_index in range(chunk_start, chunk_stop):\n",
+       "        for chunk_index in self._chunk_indices(start, stop):\n"),
+      ("    def seek(self, offset, whence=os.SEEK_SET):",
+       "    def _chunk_indices(self, start, stop):\n"
+       "        chunk_start = np.int64(start // self._chunk_size)\n"
+       "        chunk_stop = np.int64(stop // self._chunk_size + 1)\n"
+       "        return range(chunk_start, chunk_stop)\n\n"
+       "    def seek(self, offset, whence=os.SEEK_SET):")]),
+    ("last chunk index commuted (refactor C19/5)", HU,
+     ("chunk_stop = np.int64(stop // self._chunk_size + 1)",
+      "chunk_stop = np.int64(1 + stop // self._chunk_size)")),
     ("chunk start commuted", HU,
      ("            start = index*self._chunk_size\n",
       "            start = self._chunk_size * index\n")),
